@@ -311,7 +311,7 @@ fn do_case(out: &mut Out, line: &str) {
 			// error and the entries built so far (and later ones) are exactly the successful ones, in order
 			let mut rng = Rng::new(w[1].parse().unwrap());
 			let n = rng.range(0, 7);
-			let mut b = BatchRequestBuilder::new();
+			let mut b = if n % 2 == 0 { BatchRequestBuilder::new() } else { BatchRequestBuilder::default() };
 			let mut expect: Vec<(String, Option<String>)> = vec![];
 			let mut orc = Ok(());
 			for i in 0..n {
@@ -345,7 +345,14 @@ fn do_case(out: &mut Out, line: &str) {
 				expect.push((method.to_string(), exp));
 			}
 			let got: Vec<(String, Option<String>)> = b.iter().map(|(m, p)| (m.to_string(), p.as_ref().map(|p| p.get().to_string()))).collect();
+			// the three ways out of the builder hold the same entries
+			let via_into_iter: Vec<(String, Option<String>)> = b.clone().into_iter().map(|(m, p)| (m.to_string(), p.map(|p| p.get().to_string()))).collect();
 			let built = b.build();
+			let via_build: Vec<(String, Option<String>)> =
+				built.as_ref().map(|v| v.iter().map(|(m, p)| (m.to_string(), p.as_ref().map(|p| p.get().to_string()))).collect()).unwrap_or_default();
+			if orc.is_ok() && (via_into_iter != got || via_build != got) {
+				orc = Err(format!("iter() = {got:?}, clone().into_iter() = {via_into_iter:?}, build() = {via_build:?}"));
+			}
 			if orc.is_ok() {
 				if got != expect {
 					orc = Err(format!("batch builder holds {got:?}, inserted {expect:?}"));
